@@ -58,7 +58,8 @@ OpsOf(t) == CASE t = 1 -> Ops1 [] t = 2 -> Ops2 [] OTHER -> Ops3
 Min(a, b) == IF a < b THEN a ELSE b
 
 Par == [boundA |-> KCap, boundB |-> ChunkMax * (1 + MaxBurst),
-        pausedA |-> IF PausedAtStart THEN 1 ELSE 0, pausedB |-> 1, protoA |-> 1, protoB |-> 1]
+        pausedA |-> IF PausedAtStart THEN 1 ELSE 0, pausedB |-> 1, protoA |-> 1, protoB |-> 1,
+        deferA |-> 0, deferB |-> 0]
 
 NoRes == [r |-> "none", off |-> 0, len |-> 0]
 Idle == [pc |-> "idle", op |-> "none", arg |-> 0, g |-> 0]
